@@ -286,17 +286,31 @@ def apply_touch(se, svg, ops, out=None):
 
 
 def _viewport_scale(se, svg):
-    m = 1.0
-    try:
-        for e in svg.elements():
-            if isinstance(e, se.SVG):
-                vt = e.viewbox_transform
-                if vt:
-                    mx = se.Matrix(vt)
-                    m = max(m, abs(mx.a), abs(mx.b), abs(mx.c), abs(mx.d))
-    except Exception:
-        pass
-    return m
+    """Largest magnification any chain of nested viewports applies: the written matrix of a shape undoes the
+    *product* of the viewport transforms around it, and its six decimals are magnified by that product on the
+    way back (found by the thorough soak: three nested viewBoxes, 4 x 3.3 x 1.8)."""
+
+    def own(e):
+        try:
+            vt = e.viewbox_transform
+            if vt:
+                mx = se.Matrix(vt)
+                return max(1.0, abs(mx.a), abs(mx.b), abs(mx.c), abs(mx.d))
+        except Exception:
+            pass
+        return 1.0
+
+    best = 1.0
+    stack = [(svg, 1.0)]
+    while stack:
+        node, acc = stack.pop()
+        if isinstance(node, se.SVG):
+            acc *= own(node)
+            best = max(best, acc)
+        if isinstance(node, list):
+            for k in node:
+                stack.append((k, acc))
+    return best
 
 
 def _local_scale(se, svg):
